@@ -1600,7 +1600,9 @@ func reverse(parser *Parser, openKind lexer.TokenKind, parseFn parseFn, closeKin
 		return nil, err
 	}
 	var nodes []interface{}
+	closeStart := token.Start
 	for {
+		closeStart = parser.Token.Start
 		if skp, err := skip(parser, closeKind); err != nil {
 			return nil, err
 		} else if skp {
@@ -1613,7 +1615,8 @@ func reverse(parser *Parser, openKind lexer.TokenKind, parseFn parseFn, closeKin
 		nodes = append(nodes, node)
 	}
 	if zinteger && len(nodes) == 0 {
-		return nodes, unexpectedEmpty(parser, token.Start, openKind, closeKind)
+		// the closing token is the first one that cannot continue the document
+		return nodes, unexpectedEmpty(parser, closeStart, openKind, closeKind)
 	}
 	return nodes, nil
 }
